@@ -1255,3 +1255,47 @@ func bytesC20(o genOpts, e *c20Env) error {
 	}
 	return set.finish(o.out, shards)
 }
+
+// ---------------------------------------------------------------------------
+// C11: the raw request stream (mutations of a valid request body, executed in the child process through
+// Server.Request with acceptable headers): status 400 exactly when the model says "undecodable"
+
+func bytesC11(o genOpts, raws [][]byte, doneLines []string) error {
+	set := &bytesSet{prefix: "bytes_C11"}
+	if c11RawBase != nil {
+		set.addBase(c11RawBase)
+	}
+	limit := 300
+	if o.tier == "thorough" {
+		limit = 6000
+	}
+	look := []ipld.Link{fakeLink(1)}
+	for i, raw := range raws {
+		if i >= limit {
+			break
+		}
+		// "DONE <i> raw status=<s> err=<q>"
+		status, errs := 0, ""
+		for _, f := range strings.Fields(doneLines[i]) {
+			if strings.HasPrefix(f, "status=") {
+				fmt.Sscanf(f, "status=%d", &status)
+			}
+			if strings.HasPrefix(f, "err=") {
+				errs = strings.Trim(f[4:], "\"")
+			}
+		}
+		c := &bytesCase{Label: fmt.Sprintf("item %d raw-%d", i, i), Body: raw, Status: 200, Lookups: look}
+		c.Req = bytesObserveReq(raw, look)
+		c.HStatus = status
+		c.Handle = 2
+		if status == 400 && errs == "" {
+			c.Handle = 1
+		}
+		set.add(c)
+	}
+	shards := 8
+	if o.tier == "thorough" {
+		shards = 48
+	}
+	return set.finish(o.out, shards)
+}
